@@ -15,12 +15,19 @@
 //     op   hex  : OnData() with these bytes, handed over in an exact-size heap block
 //          -    : OnData(ptr, 0)
 //          R    : Reset()
+//          Bu<k>:<c> : SetBuffer(p, c) with p = the last c bytes of a new heap block of exactly c + k bytes (k = 0..3,
+//                 so p % 4 == k).  When the framer took the new buffer (buffer_ lies inside the new block) the block
+//                 of the previous caller-supplied buffer is freed, otherwise the new block is: at any time the only
+//                 live caller storage is the exact-size block in use, and any access through a stale pointer or
+//                 beyond the NEW capacity is a sanitizer report
+//          Bi:<c>    : SetBuffer(nullptr, c); the previous caller block is freed when the framer then manages its buffer
 //   answer: records joined by ';'
 //     init|<buffer_ != nullptr>|<capacity_bytes_>
 //     <a>:<hex>,...|<ret>|<state_>|<next_byte_index_>|<current_message_size_>   per OnData; one <a>:<hex> per callback,
 //                 a = address of the header argument mod 4, hex = the header re-packed from its fields followed by
 //                 payload_size_bytes bytes read through the payload pointer; '-' if there was no callback
 //     R|<state_>|<next_byte_index_>|<current_message_size_>                      per Reset
+//     B|<buffer_ != nullptr>|<capacity_bytes_>|<state_>|<next_byte_index_>|<current_message_size_>   per SetBuffer
 //   Both callback kinds (std::function and raw function pointer) are installed; they must see the same calls
 //   (otherwise the record carries "!cbmismatch").
 //
@@ -150,6 +157,36 @@ static std::string run_request(const std::string& line) {
     if (op == "R") {
       framer->Reset();
       out += "R|" + state_of(*framer);
+      continue;
+    }
+    if (op[0] == 'B') {
+      size_t colon = op.find(':');
+      if (colon == std::string::npos || op.size() < 2) return "bad-args";
+      size_t c = (size_t)strtoull(op.c_str() + colon + 1, nullptr, 10);
+      if (op[1] == 'i' && colon == 2) {
+        framer->SetBuffer(nullptr, c);
+        if (framer->is_buffer_managed_ && block != nullptr) {
+          free(block);
+          block = nullptr;
+        }
+      } else if (op[1] == 'u' && colon == 3 && op[2] >= '0' && op[2] <= '3') {
+        size_t k = (size_t)(op[2] - '0');
+        uint8_t* fresh = static_cast<uint8_t*>(malloc(c + k));
+        if ((reinterpret_cast<uintptr_t>(fresh) & 3) != 0) return "bad-malloc-alignment";
+        framer->SetBuffer(fresh + k, c);
+        uintptr_t b = reinterpret_cast<uintptr_t>(framer->buffer_);
+        uintptr_t lo = reinterpret_cast<uintptr_t>(fresh);
+        if (framer->buffer_ != nullptr && !framer->is_buffer_managed_ && b >= lo && b <= lo + c + k) {
+          free(block);
+          block = fresh;
+        } else {
+          free(fresh);
+        }
+      } else {
+        return "bad-args";
+      }
+      out += "B|" + std::string(framer->buffer_ != nullptr ? "1" : "0") + "|" +
+             std::to_string(framer->capacity_bytes_) + "|" + state_of(*framer);
       continue;
     }
     if (!unhex(op, &data)) return "bad-args";
